@@ -182,6 +182,39 @@ func TimeAt(n int64) time.Time { return time.Unix(0, n) }
 // receiver for sends, a sender of v for receives) under condition ready.  No native effect.
 func Offer(ch interface{}, ready bool, v interface{}) {}
 
+// Spawn registers a thread of a concurrent harness; Parallel runs all registered threads
+// "concurrently": the executor explores every interleaving symbolically, the code after Parallel()
+// observes the quiescent final state.  Natively the threads run as goroutines and are joined with a
+// timeout (a blocked thread stays blocked).
+var spawned []func()
+var spawnedNames []string
+var blockedNative = map[string]bool{}
+
+// Spawn registers thread f under a name.
+func Spawn(name string, f func()) {
+	spawned = append(spawned, f)
+	spawnedNames = append(spawnedNames, name)
+}
+
+// Parallel runs the spawned threads.
+func Parallel() {
+	done := make([]chan struct{}, len(spawned))
+	for i, f := range spawned {
+		done[i] = make(chan struct{})
+		go func(f func(), d chan struct{}) { defer close(d); f() }(f, done[i])
+	}
+	for i, d := range done {
+		select {
+		case <-d:
+		case <-time.After(2 * time.Second):
+			blockedNative[spawnedNames[i]] = true
+		}
+	}
+}
+
+// Blocked reports (after Parallel) whether the named thread is blocked forever.
+func Blocked(name string) bool { return blockedNative[name] }
+
 // Symbolic is true under the symbolic executor and false in native replay.
 func Symbolic() bool { return false }
 
